@@ -436,7 +436,8 @@ theorem inv1_pollLoop : ∀ (fuel : Nat) (s : State), Inv1 s → Inv1 (pollLoop 
 theorem inv1_step (s : State) (e : Event) (h : Inv1 s) : Inv1 (step s e).1 := by
   cases e with
   | notify p x ht => exact inv1_notify s p x ht h
-  | removePeer p => exact inv1_removePeer s p h
+  | removePeer p =>
+    exact inv1_mono (inv1_removePeer s p h) (fun e he => he) (fun e he => he) (fun t ht => ht) (fun t ht => ht)
   | poll => exact inv1_pollLoop _ s h
   | store ht x => exact inv1_mono h (fun e he => he) (fun e he => he) (fun t ht => ht) (fun t ht => ht)
   | taskTimeout ht => exact inv1_mono h (fun e he => he) (fun e he => he) (fun t ht => ht) (fun t ht => ht)
@@ -622,7 +623,7 @@ theorem winv_pollLoop : ∀ (fuel : Nat) (s : State), WInv s → WInv (pollLoop 
 theorem winv_step (s : State) (e : Event) (h : WInv s) : WInv (step s e).1 := by
   cases e with
   | notify p x ht => exact winv_notify s p x ht h
-  | removePeer p => exact winv_removePeer s p h
+  | removePeer p => exact winv_of_eq (winv_removePeer s p h) rfl (fun e he => ⟨e, he, rfl⟩)
   | poll => exact winv_pollLoop _ s h
   | store ht x => exact winv_of_eq h rfl (fun e he => ⟨e, he, rfl⟩)
   | taskTimeout ht => exact winv_of_eq h rfl (fun e he => ⟨e, he, rfl⟩)
@@ -940,7 +941,7 @@ theorem inv2_step (P : Nat → Nat → Prop) (hP : InjP P) (s : State) (e : Even
     have := notify_env s p x ht
     exact ⟨by show ∀ t ∈ (notify s p x ht).stored, _; rw [this.1]; exact h.env.1,
            by show ∀ t ∈ (notify s p x ht).arrived, _; rw [this.2]; exact h.env.2⟩
-  | removePeer p => exact ⟨inv1_removePeer s p h.i1, vinv_removePeer s p h.v, h.env⟩
+  | removePeer p => exact inv2_shrink P (inv2_removePeer P s p h) (fun e he => he) rfl rfl rfl rfl
   | poll => exact inv2_pollLoop P hP _ s h
   | store ht x =>
     refine ⟨inv1_step s _ h.i1, vinv_sub h.v (fun e he => he) rfl, ?_, h.env.2⟩
@@ -1112,5 +1113,579 @@ theorem poll_validation_blocks (s : State) (h x : Nat) (voted : List Nat) (cands
   apply validatePool_blocks _ x h voted cands
   rw [tryUpdate_keeps_own_pool _ _ hpos]
   exact hg
+
+/-! ### the blocking clause over histories without failing header tasks -/
+
+/-- the announcement `(p, x, h)` still stands: it is a vote in `h`'s candidates, or `h` is validated with
+    that very hash, or `h` fell out of the window -/
+def Stand (s : State) (p x h : Nat) : Prop :=
+  match alGet s.hashPools h with
+  | some (.candidates _ cands) => p ∈ (alGet cands x).getD []
+  | some (.validated y) => y = x
+  | none => ∃ H, s.subjectiveHead = some H ∧ h ≤ staleThreshold H
+
+def Excused (s : State) (p : Nat) : Prop := p ∈ s.blocked ∨ p ∈ s.removed
+
+def GoodTask (tk : Task) : Prop := (∀ h, tk ≠ .timeout h) ∧ (∀ h, tk ≠ .storeErr h)
+
+structure HInv (s : State) : Prop where
+  q : ∀ ev ∈ s.pendingEvents, ∀ ps, ev = Ev.blockPeers ps → ∀ p ∈ ps, p ∈ s.blocked
+  t : ∀ tk, tk ∈ s.queue ∨ tk ∈ s.waiters → GoodTask tk
+  h : ∀ tr ∈ s.announced, Excused s tr.1 ∨ Stand s tr.1 tr.2.1 tr.2.2
+
+theorem stand_congr {s s' : State} {p x h : Nat} (hp : alGet s'.hashPools h = alGet s.hashPools h)
+    (hh : s'.subjectiveHead = s.subjectiveHead) : Stand s' p x h ↔ Stand s p x h := by
+  unfold Stand; rw [hp, hh]
+
+theorem pollNext_mem (stored : List (Nat × Nat)) : ∀ (q w : List Task) (tk : Task),
+    tk ∈ (pollNext stored q w).1 ∨ tk ∈ (pollNext stored q w).2.1 → tk ∈ q ∨ tk ∈ w := by
+  intro q
+  induction q with
+  | nil => intro w tk h; simpa [pollNext] using h
+  | cons a q ih =>
+    intro w tk h
+    unfold pollNext at h
+    cases a with
+    | real ht =>
+      simp only at h
+      split at h
+      · rcases h with h | h
+        · exact Or.inl (List.mem_cons_of_mem _ h)
+        · exact Or.inr h
+      · rcases ih _ tk h with h | h
+        · exact Or.inl (List.mem_cons_of_mem _ h)
+        · rcases List.mem_append.1 h with h | h
+          · exact Or.inr h
+          · simp only [List.mem_singleton] at h; subst h; exact Or.inl List.mem_cons_self
+    | timeout ht =>
+      rcases h with h | h
+      · exact Or.inl (List.mem_cons_of_mem _ h)
+      · exact Or.inr h
+    | storeErr ht =>
+      rcases h with h | h
+      · exact Or.inl (List.mem_cons_of_mem _ h)
+      · exact Or.inr h
+    | head =>
+      simp only at h
+      split at h
+      · rcases h with h | h
+        · exact Or.inl (List.mem_cons_of_mem _ h)
+        · exact Or.inr h
+      · rcases ih _ tk h with h | h
+        · exact Or.inl (List.mem_cons_of_mem _ h)
+        · rcases List.mem_append.1 h with h | h
+          · exact Or.inr h
+          · simp only [List.mem_singleton] at h; subst h; exact Or.inl List.mem_cons_self
+
+theorem pollNext_fail (stored : List (Nat × Nat)) : ∀ (q w : List Task) (h : Nat),
+    ((pollNext stored q w).2.2 = some (.timeout h) → Task.timeout h ∈ q) ∧
+    ((pollNext stored q w).2.2 = some (.storeErr h) → Task.storeErr h ∈ q) := by
+  intro q
+  induction q with
+  | nil => intro w h; simp [pollNext]
+  | cons a q ih =>
+    intro w h
+    unfold pollNext
+    cases a with
+    | real ht =>
+      simp only
+      split
+      · simp
+      · exact ⟨fun e => List.mem_cons_of_mem _ ((ih _ h).1 e), fun e => List.mem_cons_of_mem _ ((ih _ h).2 e)⟩
+    | timeout ht =>
+      simp only [Option.some.injEq, TaskRes.timeout.injEq, List.mem_cons, Task.timeout.injEq, reduceCtorEq, false_or]
+      exact ⟨fun e => Or.inl e.symm, fun e => (by cases e)⟩
+    | storeErr ht =>
+      simp only [Option.some.injEq, TaskRes.storeErr.injEq, List.mem_cons, Task.storeErr.injEq, reduceCtorEq, false_or]
+      exact ⟨fun e => (by cases e), fun e => Or.inl e.symm⟩
+    | head =>
+      simp only
+      split
+      · simp
+      · exact ⟨fun e => List.mem_cons_of_mem _ ((ih _ h).1 e), fun e => List.mem_cons_of_mem _ ((ih _ h).2 e)⟩
+
+theorem hinv_init : HInv init := by
+  refine ⟨(by intro ev he; cases he), ?_, (by intro tr htr; cases htr)⟩
+  intro tk h
+  rcases h with h | h
+  · simp only [init, List.mem_singleton] at h
+    subst h
+    exact ⟨fun _ e => (by cases e), fun _ e => (by cases e)⟩
+  · cases h
+
+theorem alGet_alPush (l : List (Nat × List Nat)) (k k' p : Nat) :
+    (alGet (alPush l k p) k').getD [] = if k' = k then (alGet l k).getD [] ++ [p] else (alGet l k').getD [] := by
+  unfold alPush
+  rw [alGet_alSet]
+  split <;> simp_all
+
+theorem hinv_ensurePool (s : State) (h H : Nat) (hH : s.subjectiveHead = some H) (hst : ¬ h ≤ staleThreshold H)
+    (hi : HInv s) : HInv (ensurePool s h) := by
+  unfold ensurePool
+  split
+  · exact hi
+  · rename_i hnone
+    refine ⟨hi.q, ?_, ?_⟩
+    · intro tk htk
+      rcases htk with htk | htk
+      · rcases List.mem_append.1 htk with htk | htk
+        · exact hi.t tk (Or.inl htk)
+        · simp only [List.mem_singleton] at htk; subst htk
+          exact ⟨fun _ e => (by cases e), fun _ e => (by cases e)⟩
+      · exact hi.t tk (Or.inr htk)
+    · intro tr htr
+      rcases hi.h tr htr with he | hs
+      · exact Or.inl he
+      · right
+        by_cases hk : tr.2.2 = h
+        · exfalso
+          unfold Stand at hs
+          rw [hk, hnone] at hs
+          obtain ⟨H', h1, h2⟩ := hs
+          rw [hH] at h1; cases h1
+          exact hst h2
+        · unfold Stand at hs ⊢
+          show match alGet (alSet s.hashPools h (Pool.candidates [] [])) tr.2.2 with
+            | some (.candidates _ cands) => tr.1 ∈ (alGet cands tr.2.1).getD []
+            | some (.validated y) => y = tr.2.1
+            | none => ∃ H, s.subjectiveHead = some H ∧ tr.2.2 ≤ staleThreshold H
+          rw [alGet_alSet]
+          simp only [hk, ↓reduceIte]
+          exact hs
+
+theorem ensurePool_some (s : State) (h : Nat) : (alGet (ensurePool s h).hashPools h).isSome := by
+  unfold ensurePool
+  split
+  · rename_i hg; rw [hg]; rfl
+  · show (alGet (alSet s.hashPools h (Pool.candidates [] [])) h).isSome
+    rw [alGet_alSet]; simp
+
+/-- `vote` for the announcement `(p, x, h)` that has just been appended to `announced` -/
+theorem hinv_vote (s : State) (p x h : Nat) (hsome : (alGet s.hashPools h).isSome)
+    (hq : ∀ ev ∈ s.pendingEvents, ∀ ps, ev = Ev.blockPeers ps → ∀ p ∈ ps, p ∈ s.blocked)
+    (ht : ∀ tk, tk ∈ s.queue ∨ tk ∈ s.waiters → GoodTask tk)
+    (hold : ∀ tr ∈ s.announced, tr = (p, x, h) ∨ Excused s tr.1 ∨ Stand s tr.1 tr.2.1 tr.2.2) :
+    HInv (vote s p x h) := by
+  unfold vote
+  cases hg : alGet s.hashPools h with
+  | none => rw [hg] at hsome; cases hsome
+  | some pool =>
+    cases pool with
+    | candidates voted cands =>
+      simp only
+      split
+      · -- duplicate: blocked
+        refine ⟨?_, ht, ?_⟩
+        · intro ev hev ps hps q hqm
+          rcases List.mem_append.1 hev with hev | hev
+          · exact List.mem_append_left _ (hq ev hev ps hps q hqm)
+          · simp only [List.mem_singleton] at hev
+            subst hev
+            cases hps
+            exact List.mem_append_right _ hqm
+        · intro tr htr
+          rcases hold tr htr with rfl | he | hs
+          · left; left; simp
+          · left
+            rcases he with he | he
+            · exact Or.inl (List.mem_append_left _ he)
+            · exact Or.inr he
+          · right; exact (stand_congr rfl rfl).2 hs
+      · refine ⟨hq, ht, ?_⟩
+        intro tr htr
+        have hnew : ∀ (p' x' : Nat), (p' = p ∧ x' = x) ∨ p' ∈ (alGet cands x').getD [] →
+            Stand { s with hashPools := alSet s.hashPools h (.candidates (voted ++ [p]) (alPush cands x p)) } p' x' h := by
+          intro p' x' hc
+          unfold Stand
+          show match alGet (alSet s.hashPools h (.candidates (voted ++ [p]) (alPush cands x p))) h with
+            | some (.candidates _ cands) => p' ∈ (alGet cands x').getD []
+            | some (.validated y) => y = x'
+            | none => _
+          rw [alGet_alSet]
+          simp only [↓reduceIte]
+          rw [alGet_alPush]
+          rcases hc with ⟨rfl, rfl⟩ | hc
+          · simp
+          · split
+            · rename_i e; subst e; exact List.mem_append_left _ hc
+            · exact hc
+        rcases hold tr htr with rfl | he | hs
+        · right; exact hnew p x (Or.inl ⟨rfl, rfl⟩)
+        · exact Or.inl he
+        · right
+          by_cases hk : tr.2.2 = h
+          · have hs' := hs
+            unfold Stand at hs'
+            rw [hk, hg] at hs'
+            have := hnew tr.1 tr.2.1 (Or.inr hs')
+            rw [hk]; exact this
+          · unfold Stand at hs ⊢
+            show match alGet (alSet s.hashPools h (.candidates (voted ++ [p]) (alPush cands x p))) tr.2.2 with
+              | some (.candidates _ cands) => tr.1 ∈ (alGet cands tr.2.1).getD []
+              | some (.validated y) => y = tr.2.1
+              | none => ∃ H, s.subjectiveHead = some H ∧ tr.2.2 ≤ staleThreshold H
+            rw [alGet_alSet]
+            simp only [hk, ↓reduceIte]
+            exact hs
+    | validated y =>
+      simp only
+      have hblocked : HInv { s with pendingEvents := s.pendingEvents ++ [.blockPeers [p]], blocked := s.blocked ++ [p] } := by
+        refine ⟨?_, ht, ?_⟩
+        · intro ev hev ps hps q hqm
+          rcases List.mem_append.1 hev with hev | hev
+          · exact List.mem_append_left _ (hq ev hev ps hps q hqm)
+          · simp only [List.mem_singleton] at hev
+            subst hev
+            cases hps
+            exact List.mem_append_right _ hqm
+        · intro tr htr
+          rcases hold tr htr with rfl | he | hs
+          · left; left; simp
+          · left
+            rcases he with he | he
+            · exact Or.inl (List.mem_append_left _ he)
+            · exact Or.inr he
+          · right; exact (stand_congr rfl rfl).2 hs
+      split
+      · rename_i hyx
+        have hyx' : y = x := by simpa using hyx
+        split
+        · exact hblocked
+        · refine ⟨?_, ht, ?_⟩
+          · intro ev hev ps hps q hqm
+            rcases List.mem_append.1 hev with hev | hev
+            · exact hq ev hev ps hps q hqm
+            · simp only [List.mem_singleton] at hev
+              subst hev
+              cases hps
+          · intro tr htr
+            rcases hold tr htr with rfl | he | hs
+            · right
+              unfold Stand
+              show match alGet s.hashPools h with
+                | some (.candidates _ cands) => _
+                | some (.validated y) => y = x
+                | none => _
+              rw [hg]; exact hyx'
+            · exact Or.inl he
+            · right; exact (stand_congr rfl rfl).2 hs
+      · exact hblocked
+
+theorem ensurePool_fields (s : State) (h : Nat) :
+    (ensurePool s h).pendingEvents = s.pendingEvents ∧ (ensurePool s h).blocked = s.blocked ∧
+    (ensurePool s h).announced = s.announced ∧ (ensurePool s h).removed = s.removed := by
+  unfold ensurePool; split <;> exact ⟨rfl, rfl, rfl, rfl⟩
+
+theorem ensurePool_announced (s : State) (a : List (Nat × Nat × Nat)) (h : Nat) :
+    ensurePool { s with announced := a } h = { ensurePool s h with announced := a } := by
+  unfold ensurePool
+  show (match alGet s.hashPools h with | some _ => _ | none => _) = _
+  cases alGet s.hashPools h <;> rfl
+
+theorem hinv_notify (s : State) (p x h : Nat) (hi : HInv s) : HInv (notify s p x h) := by
+  unfold notify
+  split
+  · exact hi
+  · rename_i H hH
+    split
+    · exact hi
+    · rename_i hst
+      have h1 : HInv (ensurePool s h) := hinv_ensurePool s h H hH hst hi
+      have hf := ensurePool_fields s h
+      rw [ensurePool_announced]
+      apply hinv_vote
+      · exact ensurePool_some s h
+      · exact h1.q
+      · exact h1.t
+      · intro tr htr
+        have htr' : tr ∈ (ensurePool s h).announced ++ [(p, x, h)] := by rw [hf.2.2.1]; exact htr
+        rcases List.mem_append.1 htr' with htr' | htr'
+        · right
+          rcases h1.h tr htr' with he | hs
+          · exact Or.inl he
+          · right; exact (stand_congr rfl rfl).2 hs
+        · left; simpa using htr'
+
+theorem stand_removePeer (s : State) (q p x h : Nat) (hne : p ≠ q) (hs : Stand s p x h) :
+    Stand (removePeer s q) p x h := by
+  unfold Stand at hs ⊢
+  show match alGet (s.hashPools.map (fun e => (e.1, removeFromPool q e.2))) h with
+    | some (.candidates _ cands) => p ∈ (alGet cands x).getD []
+    | some (.validated y) => y = x
+    | none => ∃ H, s.subjectiveHead = some H ∧ h ≤ staleThreshold H
+  rw [alGet_map]
+  cases hg : alGet s.hashPools h with
+  | none => simp only [hg] at hs; simpa using hs
+  | some pool =>
+    cases pool with
+    | validated y => simp only [hg] at hs; simpa [removeFromPool] using hs
+    | candidates voted cands =>
+      simp only [hg] at hs
+      simp only [Option.map_some, removeFromPool]
+      rw [alGet_map]
+      cases hc : alGet cands x with
+      | none => simp [hc] at hs
+      | some l =>
+        simp only [hc, Option.getD_some] at hs
+        simp only [Option.map_some, Option.getD_some, List.mem_filter, bne_iff_ne, ne_eq]
+        exact ⟨hs, hne⟩
+
+/-- removing a peer that is excused afterwards keeps the invariant -/
+theorem hinv_removePeer (s s' : State) (q : Nat) (hi : HInv s)
+    (hp : s'.hashPools = (removePeer s q).hashPools) (hh : s'.subjectiveHead = s.subjectiveHead)
+    (hev : s'.pendingEvents = s.pendingEvents) (hb : s'.blocked = s.blocked)
+    (hr : ∀ r ∈ s.removed, r ∈ s'.removed) (hqu : s'.queue = s.queue) (hw : s'.waiters = s.waiters)
+    (han : s'.announced = s.announced) (hex : Excused s' q) : HInv s' := by
+  refine ⟨?_, ?_, ?_⟩
+  · rw [hev, hb]; exact hi.q
+  · rw [hqu, hw]; exact hi.t
+  · intro tr htr
+    rw [han] at htr
+    by_cases hpq : tr.1 = q
+    · left; rw [hpq]; exact hex
+    · rcases hi.h tr htr with he | hs
+      · left
+        rcases he with he | he
+        · exact Or.inl (by rw [hb]; exact he)
+        · exact Or.inr (hr _ he)
+      · right
+        have := stand_removePeer s q tr.1 tr.2.1 tr.2.2 hpq hs
+        unfold Stand at this ⊢
+        rw [hp, hh]; exact this
+
+theorem foldl_removePeer_hinv (ps : List Nat) : ∀ (s : State), HInv s → (∀ p ∈ ps, p ∈ s.blocked) →
+    HInv (ps.foldl removePeer s) := by
+  induction ps with
+  | nil => intro s h _; exact h
+  | cons p ps ih =>
+    intro s h hb
+    apply ih
+    · exact hinv_removePeer s (removePeer s p) p h rfl rfl rfl rfl (fun r hr => hr) rfl rfl rfl
+        (Or.inl (hb p List.mem_cons_self))
+    · intro p' hp'; exact hb p' (List.mem_cons_of_mem _ hp')
+
+theorem tryUpdate_fields (s : State) (h : Nat) :
+    (tryUpdateSubjectiveHead s h).pendingEvents = s.pendingEvents ∧
+    (tryUpdateSubjectiveHead s h).queue = s.queue ∧ (tryUpdateSubjectiveHead s h).waiters = s.waiters := by
+  unfold tryUpdateSubjectiveHead
+  split
+  · exact ⟨rfl, rfl, rfl⟩
+  · split
+    · exact ⟨rfl, rfl, rfl⟩
+    · exact ⟨(evict_fields _ _).2.1, (evict_fields _ _).2.2.2.1, (evict_fields _ _).2.2.2.2.1⟩
+
+theorem evict_ghost (s : State) (hs : List Nat) :
+    (evict s hs).blocked = s.blocked ∧ (evict s hs).removed = s.removed := by
+  induction hs generalizing s with
+  | nil => exact ⟨rfl, rfl⟩
+  | cons h hs ih =>
+    simp only [evict]
+    split
+    · exact ih _
+    · exact ih _
+    · exact ih _
+
+theorem tryUpdate_ghost (s : State) (h : Nat) :
+    (tryUpdateSubjectiveHead s h).blocked = s.blocked ∧ (tryUpdateSubjectiveHead s h).removed = s.removed := by
+  unfold tryUpdateSubjectiveHead
+  split
+  · exact ⟨rfl, rfl⟩
+  · split
+    · exact ⟨rfl, rfl⟩
+    · exact evict_ghost _ _
+
+theorem stand_tryUpdate (s : State) (h p x k : Nat) (hs : Stand s p x k) :
+    Stand (tryUpdateSubjectiveHead s h) p x k := by
+  unfold tryUpdateSubjectiveHead
+  split
+  · rename_i hnone
+    unfold Stand at hs ⊢
+    show match alGet s.hashPools k with
+      | some (.candidates _ cands) => p ∈ (alGet cands x).getD []
+      | some (.validated y) => y = x
+      | none => ∃ H, some h = some H ∧ k ≤ staleThreshold H
+    cases hg : alGet s.hashPools k with
+    | none => simp only [hg, hnone] at hs; obtain ⟨H, h1, _⟩ := hs; cases h1
+    | some pool => simp only [hg] at hs ⊢; cases pool <;> exact hs
+  · rename_i old hold
+    split
+    · exact hs
+    · rename_i hlt
+      simp only
+      unfold Stand at hs ⊢
+      rw [alGet_evict_pools, (evict_fields _ _).1]
+      have hmono : staleThreshold old ≤ staleThreshold h := staleThreshold_mono (by omega)
+      by_cases hk : k ∈ List.range' (staleThreshold old) (staleThreshold h + 1 - staleThreshold old)
+      · simp only [hk, ↓reduceIte]
+        refine ⟨h, rfl, ?_⟩
+        simp only [List.mem_range'_1] at hk
+        omega
+      · simp only [hk, ↓reduceIte]
+        show match alGet s.hashPools k with
+          | some (.candidates _ cands) => p ∈ (alGet cands x).getD []
+          | some (.validated y) => y = x
+          | none => ∃ H, some h = some H ∧ k ≤ staleThreshold H
+        cases hg : alGet s.hashPools k with
+        | none =>
+          simp only [hg, hold] at hs
+          obtain ⟨H, h1, h2⟩ := hs
+          cases h1
+          exact ⟨h, rfl, by omega⟩
+        | some pool => simp only [hg] at hs ⊢; cases pool <;> exact hs
+
+theorem hinv_tryUpdate (s : State) (h : Nat) (hi : HInv s) : HInv (tryUpdateSubjectiveHead s h) := by
+  have hf := tryUpdate_fields s h
+  have hg := tryUpdate_ghost s h
+  refine ⟨?_, ?_, ?_⟩
+  · rw [hf.1, hg.1]; exact hi.q
+  · rw [hf.2.1, hf.2.2]; exact hi.t
+  · intro tr htr
+    rw [tryUpdate_announced] at htr
+    rcases hi.h tr htr with he | hs
+    · left; unfold Excused at he ⊢; rw [hg.1, hg.2]; exact he
+    · right; exact stand_tryUpdate s h _ _ _ hs
+
+theorem hinv_validatePool (s : State) (x h : Nat) (hi : HInv s) : HInv (validatePool s x h) := by
+  unfold validatePool
+  split
+  · rename_i voted cands hg
+    simp only
+    refine ⟨?_, hi.t, ?_⟩
+    · intro ev hev ps hps q hqm
+      rcases List.mem_append.1 hev with hev | hev
+      · rcases List.mem_append.1 hev with hev | hev
+        · exact List.mem_append_left _ (hi.q ev hev ps hps q hqm)
+        · split at hev
+          · cases hev
+          · simp only [List.mem_singleton] at hev; subst hev; cases hps
+      · split at hev
+        · cases hev
+        · simp only [List.mem_singleton] at hev
+          subst hev
+          simp only [Ev.blockPeers.injEq] at hps
+          subst hps
+          exact List.mem_append_right _ hqm
+    · intro tr htr
+      rcases hi.h tr htr with he | hs
+      · left
+        rcases he with he | he
+        · exact Or.inl (List.mem_append_left _ he)
+        · exact Or.inr he
+      · by_cases hk : tr.2.2 = h
+        · unfold Stand at hs
+          rw [hk, hg] at hs
+          by_cases hx : tr.2.1 = x
+          · right
+            unfold Stand
+            show match alGet (alSet s.hashPools h (Pool.validated x)) tr.2.2 with
+              | some (.candidates _ cands) => _
+              | some (.validated y) => y = tr.2.1
+              | none => _
+            rw [alGet_alSet, hk]
+            simp only [↓reduceIte]
+            exact hx.symm
+          · left; left
+            apply List.mem_append_right
+            simp only [List.mem_flatMap]
+            cases hc : alGet cands tr.2.1 with
+            | none => simp [hc] at hs
+            | some l =>
+              simp only [hc, Option.getD_some] at hs
+              exact ⟨(tr.2.1, l), mem_alRemove.2 ⟨alGet_mem hc, hx⟩, hs⟩
+        · right
+          unfold Stand at hs ⊢
+          show match alGet (alSet s.hashPools h (Pool.validated x)) tr.2.2 with
+            | some (.candidates _ cands) => tr.1 ∈ (alGet cands tr.2.1).getD []
+            | some (.validated y) => y = tr.2.1
+            | none => ∃ H, s.subjectiveHead = some H ∧ tr.2.2 ≤ staleThreshold H
+          rw [alGet_alSet]
+          simp only [hk, ↓reduceIte]
+          exact hs
+  · exact hi
+  · exact hi
+
+theorem hinv_pollLoop : ∀ (fuel : Nat) (s : State), HInv s → HInv (pollLoop fuel s).1 := by
+  intro fuel
+  induction fuel with
+  | zero => intro s h; exact h
+  | succ fuel ih =>
+    intro s hi
+    unfold pollLoop
+    split
+    · rename_i ev rest hpe
+      have h0 : HInv { s with pendingEvents := rest } := by
+        refine ⟨?_, hi.t, ?_⟩
+        · intro ev' hev'
+          exact hi.q ev' (by rw [hpe]; exact List.mem_cons_of_mem _ hev')
+        · intro tr htr
+          rcases hi.h tr htr with he | hs
+          · exact Or.inl he
+          · right; exact (stand_congr rfl rfl).2 hs
+      cases ev with
+      | addPeers ps => exact h0
+      | blockPeers ps =>
+        apply foldl_removePeer_hinv ps _ h0
+        intro p hp
+        exact hi.q _ (by rw [hpe]; exact List.mem_cons_self) ps rfl p hp
+    · rename_i hpe
+      simp only
+      have hgood : ∀ tk, tk ∈ (pollNext s.stored s.queue s.waiters).1 ∨ tk ∈ (pollNext s.stored s.queue s.waiters).2.1 →
+          GoodTask tk := fun tk htk => hi.t tk (pollNext_mem _ _ _ tk htk)
+      have h0 : HInv { s with queue := (pollNext s.stored s.queue s.waiters).1,
+                              waiters := (pollNext s.stored s.queue s.waiters).2.1 } := by
+        refine ⟨hi.q, hgood, ?_⟩
+        intro tr htr
+        rcases hi.h tr htr with he | hs
+        · exact Or.inl he
+        · right; exact (stand_congr rfl rfl).2 hs
+      split
+      · exact h0
+      · rename_i height hash hres
+        apply hinv_validatePool
+        apply hinv_tryUpdate
+        refine ⟨h0.q, h0.t, ?_⟩
+        intro tr htr
+        rcases h0.h tr htr with he | hs
+        · exact Or.inl he
+        · right; exact (stand_congr rfl rfl).2 hs
+      · rename_i height hres
+        exact absurd rfl ((hi.t _ (Or.inl ((pollNext_fail _ _ _ height).1 hres))).1 height)
+      · rename_i height hres
+        exact absurd rfl ((hi.t _ (Or.inl ((pollNext_fail _ _ _ height).2 hres))).2 height)
+
+/-- no header task is made to fail -/
+def NoFail : Event → Prop
+  | .taskTimeout _ => False
+  | .taskStoreErr _ => False
+  | _ => True
+
+theorem hinv_step (s : State) (e : Event) (hi : HInv s) (hn : NoFail e) : HInv (step s e).1 := by
+  cases e with
+  | notify p x ht => exact hinv_notify s p x ht hi
+  | removePeer p =>
+    exact hinv_removePeer s _ p hi rfl rfl rfl rfl (fun r hr => List.mem_append_left _ hr) rfl rfl rfl
+      (Or.inr (by show p ∈ s.removed ++ [p]; simp))
+  | poll => exact hinv_pollLoop _ s hi
+  | store ht x =>
+    refine ⟨hi.q, ?_, ?_⟩
+    · intro tk htk
+      rcases htk with htk | htk
+      · rcases List.mem_append.1 htk with htk | htk
+        · exact hi.t tk (Or.inl htk)
+        · exact hi.t tk (Or.inr htk)
+      · cases htk
+    · intro tr htr
+      rcases hi.h tr htr with he | hs
+      · exact Or.inl he
+      · right; exact (stand_congr rfl rfl).2 hs
+  | taskTimeout ht => cases hn
+  | taskStoreErr ht => cases hn
+
+theorem hinv_run (evs : List Event) : ∀ s, HInv s → (∀ e ∈ evs, NoFail e) → HInv (run s evs) := by
+  induction evs with
+  | nil => intro s h _; exact h
+  | cons e evs ih =>
+    intro s h hn
+    exact ih _ (hinv_step s e h (hn e List.mem_cons_self)) (fun e' he' => hn e' (List.mem_cons_of_mem _ he'))
 
 end Lumina.Proofs.Pools
